@@ -530,5 +530,7 @@ pub fn run(tier: Tier) -> i32 {
     rep.extra.insert("answer_alphabet".into(), json!(adv_answers.iter().map(|a| a.as_ref().map(|v| v.show()).unwrap_or("absent".into())).collect::<Vec<_>>()));
     rep.rule = "conditions: every token string up to the length bound over 21 tokens, loaded over identifier bodies of every value kind; every loaded condition (distinct parse trees) and every rule of the shared universe x 16 switch sets (distinct optimised trees) x an adversarial document whose every find() answer is a choice point over the value-kind alphabet (answers need not be consistent), explored exhaustively up to the stated number of deviations from the default answer; plus or-groups of regexes that are heavy enough for their merged set to exceed the regex size limit; plus validate() over example lists of every YAML kind; plus every string up to the length bound over {a b . [ ] 0 1 - blank} as a field name (plain, inside a nested block, under all() and int()) matched unoptimised and fully optimised against five concrete documents in two representations through the crate's own Object::find. Oracle: no panic in optimise / matches / validate, and structurally every operand of and/or/not is a predicate and every identifier exists. non-trivial = loaded rule".into();
     rep.assumptions = vec!["objects inside the answer alphabet are fixed trees; the two adversarial-object answers make every get() on the returned object (and on the two objects of the returned array) a further choice point over the scalar and array answers".into()];
+    // or-groups wider than the matrix key encoding thresholds: optimise / matches must not panic
+    rep.stats.merge(crate::wide::run(tier.thorough(), true));
     rep.finish()
 }
